@@ -669,26 +669,40 @@ RxReplDefined(rep, m) == RxReplDefinedAt(rep, 1, m)
 (*   [k |-> "str", s |-> units]                                              *)
 (*   [k |-> "fn"]   a function that records its arguments and returns        *)
 (*                  "[" + matched + "]"                                      *)
+(*   [k |-> "fnret", v |-> value]  a function that records its arguments and *)
+(*                  returns value (a primitive or a scripted conversion      *)
+(*                  object of Ops.tla): the replacement is ToString(value),  *)
+(*                  taken as it is - Table 22 applies to a replaceValue that *)
+(*                  is NOT a function only                                   *)
 (* result v = <<new string, log of argument lists>>                          *)
 RECURSIVE RxReplLoop(_, _, _, _, _, _)
-RxReplLoop(S, fs, j, last, rv, acc) ==          \* acc = [s |-> units so far, log |-> calls]
-    IF j > Len(fs) THEN [s |-> acc.s \o RxSub(S, last, Len(S)), log |-> acc.log]
+RxReplLoop(S, fs, j, last, rv, acc) ==          \* acc = [s |-> units so far, log |-> calls, clog |-> scripted conversions]
+    IF j > Len(fs) THEN [s |-> acc.s \o RxSub(S, last, Len(S)), log |-> acc.log, clog |-> acc.clog]
     ELSE LET f == fs[j]
              args == <<StrV(RxSub(S, f.s, f.e))>> \o [n \in 1..Len(f.cap) |-> RxCapVal(S, f.cap[n])] \o <<IntV(f.s), StrV(S)>>
-             piece == IF rv.k = "fn" THEN <<91>> \o RxSub(S, f.s, f.e) \o <<93>> ELSE RxExpand(rv.s, 1, S, f)
-             acc2 == [s |-> acc.s \o RxSub(S, last, f.s) \o piece,
-                      log |-> IF rv.k = "fn" THEN Append(acc.log, ArrV(args)) ELSE acc.log]
+             conv == IF rv.k = "fnret" THEN ToStringV(rv.v, acc.clog) ELSE R(Undef, acc.clog)   \* 15.5.4.11: ToString(result of the call)
+             piece == CASE rv.k = "fn" -> <<91>> \o RxSub(S, f.s, f.e) \o <<93>>
+                        [] rv.k = "fnret" -> conv.v.s
+                        [] OTHER -> RxExpand(rv.s, 1, S, f)
+             acc2 == [s |-> acc.s \o RxSub(S, last, f.s) \o piece, clog |-> conv.log,
+                      log |-> IF rv.k \in {"fn", "fnret"} THEN Append(acc.log, ArrV(args)) ELSE acc.log]
          IN  IF Len(acc2.s) < 0 THEN acc2 ELSE RxReplLoop(S, fs, j + 1, f.e, rv, acc2)
 RxStrReplace(X, S, rv) ==
     LET first == RxFindFrom(RxCtx(X, S), X.P, 0)
         es == Es5AllMatches(X, S)
         fs == IF ~X.g THEN (IF first.ok THEN <<first>> ELSE <<>>)           \* "the first match"
               ELSE IF D("D10_replace_global_findall") THEN GoAll(X, S) ELSE es.fs
-        r == RxReplLoop(S, fs, 1, 0, rv, [s |-> <<>>, log |-> <<>>])
+        r == RxReplLoop(S, fs, 1, 0, rv, [s |-> <<>>, log |-> <<>>, clog |-> <<>>])
         li == IF ~X.g THEN X.li                                             \* lastIndex is not mentioned for this case
               ELSE IF D("D10_replace_global_lastindex") THEN (IF Len(fs) = 0 THEN X.li ELSE IntV(Utf8Len(RxSub(S, 0, fs[Len(fs)].e))))   \* a byte offset
               ELSE IntV(0)                                                  \* "in the same manner as in match, including the update of lastIndex"
-    IN  [R |-> [X EXCEPT !.li = li], v |-> ArrV(<<RxResultStr(r.s), ArrV(r.log)>>)]
+    IN  [R |-> [X EXCEPT !.li = li], v |-> ArrV(<<RxResultStr(r.s), ArrV(r.log)>>), clog |-> r.clog]
+(* 15.5.4.11 with a searchValue that is not a RegExp: the first occurrence of searchString, m = 0 *)
+RxStrReplaceS(S, search, rv) ==
+    LET p == IndexFrom(S, search, 1)
+        fs == IF p = 0 THEN <<>> ELSE <<[ok |-> TRUE, s |-> p - 1, e |-> p - 1 + Len(search), cap |-> <<>>]>>
+        r == RxReplLoop(S, fs, 1, 0, rv, [s |-> <<>>, log |-> <<>>, clog |-> <<>>])
+    IN  [v |-> ArrV(<<RxResultStr(r.s), ArrV(r.log)>>), clog |-> r.clog]
 
 (* 15.5.4.12 String.prototype.search(regexp): lastIndex and global ignored, lastIndex unchanged *)
 RxStrSearch(X, S) ==
